@@ -323,6 +323,30 @@ def c29_build(seed):
         x, y = mkvar(rng.choice(vs), s), mkvar(rng.choice(vs), s)
         prod = T("*", (x, y), s)
         cmds.insert(len(cmds) - rng.randint(0, n), {"k": "assert", "term": T(rng.choice(["<=", "=", ">"]), (prod, g.tg.const(s)), "Bool")})
+    if declared in ("QF_IDL", "QF_RDL") and rng.random() < 0.5:
+        # near-difference atoms: a difference of two variables plus further addends with unit coefficients; if such an atom were
+        # read as the difference alone, the companion difference atom would flip the answer
+        s = gen.LOGICS[profile]["arith"][0]
+        vs = list(g.sig.consts[s])
+        if len(vs) >= 3:
+            from ..terms import mknum
+            rng.shuffle(vs)
+            x, y, z = [mkvar(v, s) for v in vs[:3]]
+            c1 = rng.randint(-3, 3)
+            d = rng.randint(1, 3)
+            diff = T("-", (x, y), s)
+            extra = T(rng.choice(["+", "-"]), (diff, z), s) if rng.random() < 0.7 else T("+", (diff, z, mkvar(vs[3 % len(vs)], s)), s)
+            if rng.random() < 0.5:
+                a1 = T("<=", (extra, mknum(c1, s)), "Bool")
+                a2 = T(">=", (diff, mknum(c1 + d, s)), "Bool")
+            else:
+                a1 = T(">=", (extra, mknum(c1, s)), "Bool")
+                a2 = T("<=", (diff, mknum(c1 - d, s)), "Bool")
+            pair = [{"k": "assert", "term": a1}, {"k": "assert", "term": a2}]
+            rng.shuffle(pair)
+            if rng.random() < 0.5:
+                cmds = [c for c in cmds if c["k"] != "assert"]      # the pair alone decides
+            cmds += pair
     if rng.random() < 0.5 and sr.option_state(cmds)["incremental"]:
         cmds.append({"k": "check-sat"})
         cmds.append({"k": "push", "n": 1})
@@ -467,7 +491,10 @@ def c30_case(param):
         res.inc("engine_" + eng)
         nanswered = sum(1 for c, r in zip(cmds, resp2) if c["k"] == "check-sat" and sr.answer_of(r))
         res.inc("checks_answered", nanswered)
-        if r2.timeout:
+        if r2.timeout and not r2.cpu_exhausted:
+            res.inconclusive += 1
+            res.inc("stopped_without_using_the_cpu_budget")      # wall-clock watchdog or SIGKILL on a loaded machine: no verdict
+        elif r2.timeout:
             res.inc("screening_timeouts")
             res.viol.append(Violation("divergence-candidate", c30_site(cmds, nanswered),
                                       "no answer to check-sat #%d within %d s CPU\n%s" % (
@@ -485,8 +512,8 @@ def c30_confirm(w):
     cmds = sr.cmds_from_witness(w)
     for budget in CONFIRM:
         run, resp, last = sr.execute(cmds, cpu_s=budget)
-        if not run.timeout:
-            return False
+        if not (run.timeout and run.cpu_exhausted):
+            return False          # answered, or stopped by something other than the CPU budget (no verdict)
     return True
 
 
